@@ -46,13 +46,12 @@ automaton; no hypercorn code):
 """
 from __future__ import annotations
 
-import itertools
 from typing import Any, Callable, Dict, List, Optional, Tuple
 
 from mc.clients import h1_request
 from mc.explore import V
 from mc.harness import internal_errors
-from mc.x_c10c11_ref import (INVALID, NOT_WS, UNSPEC, VALID, DecisionModel, classify_h1, classify_h2, close_frame,
+from mc.x_c10c11_ref import (INVALID, NOT_WS, VALID, DecisionModel, classify_h1, classify_h2, close_frame,
                              ws_accept_token)
 from mc.x_c10c11_run import GuardClient, case_execute
 
